@@ -317,32 +317,61 @@ static void init_sortable(fb_compound_type_t *ct)
  * it is known whether any non-direct descendants are
  * sortable.
  */
+static void init_sortable_symbol(void *context, fb_symbol_t *sym)
+{
+    (void)context;
+
+    switch (sym->kind) {
+    case fb_is_table:
+    case fb_is_union:
+        init_sortable((fb_compound_type_t *)sym);
+        break;
+    default:
+        break;
+    }
+}
+
+static void init_sortable_scope(void *context, fb_scope_t *scope)
+{
+    fb_symbol_table_visit(&scope->symbol_index, init_sortable_symbol, context);
+}
+
+static void mark_sortable_symbol(void *context, fb_symbol_t *sym)
+{
+    int *count = context;
+
+    switch (sym->kind) {
+    case fb_is_table:
+    case fb_is_union:
+        *count += mark_member_sortable((fb_compound_type_t *)sym);
+        break;
+    default:
+        break;
+    }
+}
+
+static void mark_sortable_scope(void *context, fb_scope_t *scope)
+{
+    fb_symbol_table_visit(&scope->symbol_index, mark_sortable_symbol, context);
+}
+
 static int mark_sortable(fb_output_t *out)
 {
-    fb_symbol_t *sym;
     int old_count = -1, count = 0;
 
+    /*
+     * Tables and unions of included schemas are visited as well: they
+     * can be members of tables in this schema and must be known to be
+     * sortable for the sorters of this schema to descend into them.
+     */
+
     /* Initialize state kept in the custom export_index symbol table field. */
-    for (sym = out->S->symbols; sym; sym = sym->link) {
-        switch (sym->kind) {
-        case fb_is_table:
-        case fb_is_union:
-            init_sortable((fb_compound_type_t *)sym);
-            break;
-        }
-    }
+    fb_scope_table_visit(&out->S->root_schema->scope_index, init_sortable_scope, 0);
     /* Perform fix-point iteration search. */
     while (old_count != count) {
         old_count = count;
         count = 0;
-        for (sym = out->S->symbols; sym; sym = sym->link) {
-            switch (sym->kind) {
-            case fb_is_table:
-            case fb_is_union:
-                count += mark_member_sortable((fb_compound_type_t *)sym);
-                break;
-            }
-        }
+        fb_scope_table_visit(&out->S->root_schema->scope_index, mark_sortable_scope, &count);
     }
     return 0;
 }
